@@ -1377,6 +1377,39 @@ func resolveLocalField(v ssa.Value) ssa.Value {
 			}
 			vals = append(vals, fv)
 		case *ssa.UnOp, *ssa.DebugRef:
+		case *ssa.MakeClosure:
+			// captured by a closure: fine as long as the closure does not assign this field
+			fn, _ := x.Fn.(*ssa.Function)
+			if fn == nil {
+				return v
+			}
+			for bi, b := range x.Bindings {
+				if b != ssa.Value(al) || bi >= len(fn.FreeVars) {
+					continue
+				}
+				for _, fr := range *fn.FreeVars[bi].Referrers() {
+					cfa, ok := fr.(*ssa.FieldAddr)
+					if !ok {
+						if _, isLoad := fr.(*ssa.UnOp); isLoad {
+							continue
+						}
+						if _, isDbg := fr.(*ssa.DebugRef); isDbg {
+							continue
+						}
+						return v
+					}
+					if cfa.Field != fa.Field {
+						continue
+					}
+					for _, rr := range *cfa.Referrers() {
+						if _, isLoad := rr.(*ssa.UnOp); !isLoad {
+							if _, isDbg := rr.(*ssa.DebugRef); !isDbg {
+								return v // the closure writes (or passes on the address of) this field
+							}
+						}
+					}
+				}
+			}
 		default:
 			return v // escapes
 		}
